@@ -1177,3 +1177,12 @@ V("C10", "triclinic-flag-misses-cy", NBC, "box_matrix[3] != 0 || box_matrix[5] !
 V("C10", "twin-triclinic-flag-by-loop", NBC, "    bool triclinic = periodic && (box_matrix[1] != 0 || box_matrix[2] != 0 ||\n            box_matrix[3] != 0 || box_matrix[5] != 0 || box_matrix[6] != 0 || box_matrix[7] != 0);",
   "    bool triclinic = false;\n    for (int k = 1; periodic && k < 8; k++)\n        if (k != 4 && box_matrix[k] != 0)\n            triclinic = true;", None)
 V("C16", "contacts-ca-drops-periodic", "mdtraj/geometry/contact.py", "        distances = md.compute_distances(traj, atom_pairs, periodic=periodic)\n", "        distances = md.compute_distances(traj, atom_pairs)\n", "C16-R5", "compute_contacts", count="all")
+RDFP = "mdtraj/geometry/rdf.py"
+V("C16", "twin-rdf-norm-reordered", RDFP, "    norm = len(pairs) * np.sum(1.0 / traj.unitcell_volumes) * V\n", "    inv_vol = (1.0 / traj.unitcell_volumes).sum()\n    norm = V * inv_vol * len(pairs)\n", None)
+V("C16", "rdf-norm-mean-volume", RDFP, "    norm = len(pairs) * np.sum(1.0 / traj.unitcell_volumes) * V\n", "    norm = len(pairs) * traj.n_frames / np.mean(traj.unitcell_volumes) * V\n", "C16-R7", "compute_rdf")
+V("C16", "rdf-t-weights-precomputed-zero-on-exact-multiple", RDFP, "    weights = np.zeros(n_small_chunks)\n", "    weights = np.ones(n_small_chunks)\n    weights[-1] = (len(pairs) % n_concurrent_pairs) / n_concurrent_pairs\n", "C16-R7", "compute_rdf_t",
+  edits=[("    weights = np.zeros(n_small_chunks)\n", "    weights = np.ones(n_small_chunks)\n    weights[-1] = (len(pairs) % n_concurrent_pairs) / n_concurrent_pairs\n"), ("        weights[i] = len(pairs_set) / n_concurrent_pairs\n", "")])
+V("C16", "twin-rdf-t-weights-precomputed-right", RDFP, "    weights = np.zeros(n_small_chunks)\n", "x", None,
+  edits=[("    weights = np.zeros(n_small_chunks)\n", "    weights = np.ones(n_small_chunks)\n    weights[-1] = (len(pairs) - (n_small_chunks - 1) * n_concurrent_pairs) / n_concurrent_pairs\n"), ("        weights[i] = len(pairs_set) / n_concurrent_pairs\n", "")])
+V("C16", "rdf-t-unweighted-chunk-average", RDFP, "    g_r_t_final = np.average(g_r_t, axis=0, weights=weights)", "    g_r_t_final = np.mean(g_r_t, axis=0)", "C16-R7", "compute_rdf_t")
+V("C16", "rdf-t-chunk-stride-off-by-one", RDFP, "        pairs_set = pairs[i * n_concurrent_pairs : (i + 1) * n_concurrent_pairs]", "        pairs_set = pairs[i * n_concurrent_pairs : (i + 1) * n_concurrent_pairs - 1]", "C16-R7", "compute_rdf_t")
